@@ -9,9 +9,9 @@ Lemma coverage_complete_l : coverage bval_sig bval_enum.
 Proof. apply coverage_of_b. vm_compute. reflexivity. Qed.
 
 Lemma specified_present_l :
-  Forall (fun p => present bval_sig fint_tbl genc_tbl (fst p) (snd p)) sop_table.
+  Forall (fun p => present (bval_sig ++ bval_comp_sig) fint_tbl genc_tbl (fst p) (snd p)) sop_table.
 Proof.
-  apply (Forall_of_forallb (fun p => present_b bval_sig fint_tbl genc_tbl (fst p) (snd p))).
+  apply (Forall_of_forallb (fun p => present_b (bval_sig ++ bval_comp_sig) fint_tbl genc_tbl (fst p) (snd p))).
   - intros [n o] H. apply present_of_b. exact H.
   - vm_compute. reflexivity.
 Qed.
